@@ -75,7 +75,12 @@ def compare_prefix(name, full, pre, k, scale, order_exempt=0):
                 ok = ok | (cat & ~ident[:len(ok)])
         if not ok.all():
             i = int(np.argmin(ok))
-            bad.append((fld, f'{name}.{fld}: index {i} of the series is {p2[i]!r} on the first {k} candles but {a2[i]!r} on all {len(a)} candles '
+            tag = ''
+            if a2.dtype.kind in 'fiu' and p2.dtype.kind in 'fiu':
+                badm = ~ok
+                if (~np.isfinite(af[badm])).all() and np.isfinite(pf[badm]).all():
+                    tag = ':a-later-non-finite-value-poisons-earlier-ones'  # e.g. log(0) of a later zero-volume candle inside a matrix product
+            bad.append((fld + tag, f'{name}.{fld}: index {i} of the series is {p2[i]!r} on the first {k} candles but {a2[i]!r} on all {len(a)} candles '
                              f'({int((~ok).sum())} of {m} positions differ)', int((~ok).sum())))
     return bad
 
@@ -143,7 +148,7 @@ def run_shard(acc, shard, nshards, seed, tier):
     @st.composite
     def cases(draw):
         kind = draw(st.sampled_from(KINDS))
-        n = draw(st.sampled_from([130, 150, 241, 300, 400, 600]))
+        n = draw(st.sampled_from([130, 150, 241, 300, 400, 600, 130, 150, 241, 300, 400, 600, 1500, 3500]))  # long inputs: length-dependent scaling only shows beyond ~1000 candles
         default = draw(st.sampled_from([True, False, False]))
         # prefix lengths first: compiled kernels do no bounds checking, so every period must fit the shortest prefix
         kmin = 100 if n > 100 else n - 10
